@@ -58,7 +58,9 @@ class Registry:
         return self.classes.get(name)
 
     def issub(self, a: str, b: str) -> bool:
-        ca, cb = self.classes.get(a), self.classes.get(b)
+        import builtins
+        ca = self.classes.get(a) or getattr(builtins, a, None)
+        cb = self.classes.get(b) or getattr(builtins, b, None)
         if ca is None or cb is None:
             return a == b
         return issubclass(ca, cb)
